@@ -500,6 +500,49 @@ func runC08(r *Report, rng *rand.Rand, thorough bool) {
 			}
 		}
 	}
+	// ---- "slices for arrays": the element type of a slice is the type generated for the items - the named type when the
+	// inline item schema gets one (an enum, an object with additional properties), the plain type otherwise
+	{
+		item := func(s map[string]any) map[string]any { return map[string]any{"type": "array", "items": s} }
+		doc, _ := json.Marshal(map[string]any{"openapi": "3.0.3", "info": map[string]any{"title": "c", "version": "1"}, "paths": map[string]any{},
+			"components": map[string]any{"schemas": map[string]any{
+				"Colour": map[string]any{"type": "string", "enum": []string{"red", "blue"}},
+				"Pet": map[string]any{"type": "object", "required": []string{"names", "colours", "tags", "extras", "sizes"}, "properties": map[string]any{
+					"names":   item(map[string]any{"type": "string"}),
+					"sizes":   item(map[string]any{"type": "integer", "format": "int64"}),
+					"colours": item(map[string]any{"$ref": "#/components/schemas/Colour"}),
+					"tags":    item(map[string]any{"type": "string", "enum": []string{"small", "large"}}),
+					"extras": item(map[string]any{"type": "object", "required": []string{"id"}, "properties": map[string]any{"id": map[string]any{"type": "integer", "format": "int64"}},
+						"additionalProperties": map[string]any{"type": "string"}}),
+				}}}}})
+		cfg := codegen.Configuration{PackageName: "gen", Generate: codegen.GenerateOptions{Models: true}}
+		cfg.OutputOptions.SkipPrune = true
+		code, err := generate(doc, cfg)
+		if err != nil {
+			r.Violate("array_items_generate_error", err.Error(), nil)
+		} else {
+			p, _ := parseGo(code)
+			fields, _ := structFields(p, "Pet")
+			tn := p.typeNames()
+			byTag := map[string]string{}
+			for _, f := range fields {
+				byTag[strings.Split(jsonTagOf(f.Tag), ",")[0]] = f.Type
+			}
+			for tag, want := range map[string]string{"names": "[]string", "sizes": "[]int64", "colours": "[]Colour"} {
+				r.Count("array-items/"+tag, true)
+				if byTag[tag] != want {
+					r.Violate("array_element_type", fmt.Sprintf("Pet.%s has type %s, documentation says %s", tag, byTag[tag], want), map[string]any{"member": tag})
+				}
+			}
+			for _, tag := range []string{"tags", "extras"} {
+				r.Count("array-items/"+tag, true)
+				el := strings.TrimPrefix(byTag[tag], "[]")
+				if !strings.HasPrefix(byTag[tag], "[]") || !tn[el] {
+					r.Violate("array_element_type", fmt.Sprintf("Pet.%s has type %s: the items get a named type of their own (enum constants, custom marshalling), the slice must be a slice of that type", tag, byTag[tag]), map[string]any{"member": tag})
+				}
+			}
+		}
+	}
 	// ---- "the referenced named type for $ref": the name is the one the CURRENT document and configuration give the
 	// component (x-go-name, name normaliser), generation after generation in one process
 	{
